@@ -187,6 +187,9 @@ impl ServiceInfo {
         // [RFC20], excluding '=' (0x3D).
         for prop in txt_properties.iter() {
             let key = prop.key();
+            if key.is_empty() {
+                return Err(Error::Msg("TXT property key is empty".to_string()));
+            }
             if !key.is_ascii() {
                 return Err(Error::Msg(format!(
                     "TXT property key {} is not ASCII",
